@@ -34,6 +34,8 @@ def _setup(w):
 def replay(w):
     if w.get('obligation') == 'bic_logdet_argument_in_double_range':
         return replay_site(w)
+    if (w.get('notes') or {}).get('kind') == 'end_to_end':
+        return _end_to_end(w)
     from fast_ticc import cluster_metrics
     T, K, n, labels, st = _setup(w)
     with np.errstate(all='ignore'):
@@ -57,6 +59,59 @@ def replay(w):
     obs = {'real': real, 'definition': want, 'labels': labels}
     bad = not close(real, want, rel=1e-9, ab=1e-9)
     return {'reproduced': bad, 'signature': 'bic-differs-from-definition' if bad else None, 'observed': obs}
+
+
+def _end_to_end(w):
+    """Real main loop stopped by the iteration limit; BIC recomputed from the covariances the last
+    fit used (captured at the optimiser phase) and the final labels."""
+    import fast_ticc
+    from fast_ticc import graphical_lasso as gl
+    lim = int(w['notes'].get('limit', 1))
+    real_opt = gl.optimize_markov_random_fields
+    res = None
+    for seed in range(12):
+        # overlapping regimes in short alternating segments: with the run cut off by the iteration
+        # limit the last relabelling differs from the labelling the last fit was made for
+        rng = np.random.default_rng(seed)
+        means = np.repeat(np.array([0.0, 1.5, 3.0] * 4), 10)
+        data = rng.standard_normal((120, 2)) + means[:, None]
+        fits = []
+
+        def spy(model, d, pool):
+            out = real_opt(model, d, pool)
+            fits.append(out)
+            return out
+        gl.optimize_markov_random_fields = spy
+        try:
+            np.random.seed(seed)
+            res = fast_ticc.ticc_labels(data, window_size=2, num_clusters=3, iteration_limit=lim, min_cluster_size=3,
+                                        sparsity_weight=0.1, label_switching_cost=6.0)
+        except Exception:
+            res = None
+        finally:
+            gl.optimize_markov_random_fields = real_opt
+        if res is None or not fits:
+            continue
+        final = [int(x) for x in res.point_labels if int(x) >= 0]
+        if final != [int(x) for x in fits[-1].point_labels]:
+            break
+    if res is None or not fits:
+        return {'reproduced': False, 'signature': None, 'observed': {'no_completed_run': True}}
+    fitted = fits[-1]
+    labels = [int(x) for x in res.point_labels if int(x) >= 0]
+    runs, last = [], None
+    for l in labels:
+        if l != last:
+            runs.append(l)
+            last = l
+    cnt = [int(np.sum(np.abs(cl.train_inverse) > 2e-5)) for cl in fitted.clusters]
+    want = sum(cnt[k] for k in runs) * math.log(len(labels)) - 2 * sum(
+        np.linalg.slogdet(cl.train_inverse)[1] - float(np.trace(cl.train_inverse @ cl.empirical_covariance))
+        for cl in fitted.clusters)
+    got = float(res.bayesian_information_criterion)
+    bad = not close(got, want, rel=1e-9, ab=1e-9)
+    return {'reproduced': bad, 'signature': 'reported-bic-not-from-fitted-model' if bad else None,
+            'observed': {'reported': got, 'definition_with_fitted_model': want, 'limit': lim}}
 
 
 def validate(witnesses):
